@@ -239,7 +239,7 @@ mod leaf {
 }
 
 // ---------------------------------------------------------------------------------------------
-// container shapes without keys
+// container shapes without keys (one small harness per shape and aspect, see shapes_basic.rs)
 // ---------------------------------------------------------------------------------------------
 #[cfg(any(verif_unit = "all", verif_unit = "convert_shapes"))]
 mod shapes {
@@ -253,104 +253,70 @@ mod shapes {
     const STRUCT1: u8 = ValueKind::Struct1 as u8;
     const STRUCT2: u8 = ValueKind::Struct2 as u8;
 
-    #[kani::proof]
-    #[kani::unwind(10)]
-    fn q_c13_shape_some_enum() {
-        let x: u8 = kani::any();
-        let id: u8 = 9; // literal: a symbolic first varint byte makes later positions symbolic
-        let some = [SOME, U8, x];
-        check_convert(&some, &some, 2);
-        check_convert_prefix_rejected(&some, 1);
-        check_convert_prefix_rejected(&some, 2);
-        let en = [ENUM, id, U8, x];
-        check_convert(&en, &en, 2);
-        check_convert_prefix_rejected(&en, 2);
-        check_convert_prefix_rejected(&en, 3);
-        // an enum around a new-epoch container
-        let en2 = [ENUM, id, VEC2, SOME, U8, x, NONE];
-        let en1 = [ENUM, id, VEC1, 1, U8, x];
-        check_convert(&en2, &en1, 3);
-        let so2 = [SOME, VEC2, NONE];
-        let so1 = [SOME, VEC1, 0];
-        check_convert(&so2, &so1, 2);
-    }
-
-    #[kani::proof]
-    #[kani::unwind(10)]
-    fn q_c13_shape_vec() {
-        let x: u8 = kani::any();
-        let y: u8 = kani::any();
-        let v2 = [VEC2, SOME, U8, x, SOME, U8, y, NONE];
-        let v1 = [VEC1, 2, U8, x, U8, y];
-        check_convert(&v2, &v1, 2);
+    fn all_prefixes_rejected(enc: &[u8]) {
         let mut l = 0;
-        while l < 8 {
-            check_convert_prefix_rejected(&v2, l);
+        while l < enc.len() {
+            check_convert_prefix_rejected(enc, l);
             l += 1;
         }
-        check_convert_prefix_rejected(&v1, 5);
-        check_convert_prefix_rejected(&v1, 1);
-        let e2 = [VEC2, NONE];
-        let e1 = [VEC1, 0];
-        check_convert(&e2, &e1, 1);
-        // nested, and new inside old
-        let n2 = [VEC2, SOME, VEC2, SOME, U8, x, NONE, NONE];
-        let n1 = [VEC1, 1, VEC1, 1, U8, x];
-        check_convert(&n2, &n1, 3);
-        let m2 = [VEC1, 1, VEC2, SOME, U8, x, NONE];
-        check_convert(&m2, &n1, 3);
-        // bad marker
-        let bad: u8 = kani::any();
-        kani::assume(bad != SOME && bad != NONE && bad <= 65);
-        let vb = [VEC2, SOME, U8, x, bad, U8, y, NONE];
+    }
+
+    /// `$v2` = input encoding (either epoch or mixed), `$v1` = its legacy reference encoding.
+    macro_rules! cshape {
+        ($m:ident, $unwind:expr, $levels:expr, |$x:ident, $y:ident, $z:ident| $v2:expr => $v1:expr) => {
+            mod $m {
+                use super::*;
+
+                #[kani::proof]
+                #[kani::unwind($unwind)]
+                fn q_c13_c12_convert() {
+                    let ($x, $y, $z): (u8, u8, u8) = (kani::any(), kani::any(), kani::any());
+                    let v2 = $v2;
+                    let v1 = $v1;
+                    check_convert(&v2, &v1, $levels);
+                }
+
+                #[kani::proof]
+                #[kani::unwind($unwind)]
+                fn q_c13_truncations() {
+                    let ($x, $y, $z): (u8, u8, u8) = (kani::any(), kani::any(), kani::any());
+                    let v2 = $v2;
+                    all_prefixes_rejected(&v2);
+                }
+
+                #[cfg(verif_replay)]
+                include!(concat!("/verif/.cache/replay/convert_value__verif__shapes__", stringify!($m), ".rs"));
+            }
+        };
+    }
+
+    cshape!(some_u8, 12, 2, |x, y, z| [SOME, U8, x] => [SOME, U8, x]);
+    cshape!(enum_u8, 12, 2, |x, y, z| [ENUM, 9, U8, x] => [ENUM, 9, U8, x]);
+    cshape!(enum_wide_noncanonical_id, 12, 2, |x, y, z| [ENUM, 255, y, 0, 0, 0, U8, x] => [ENUM, 255, y, 0, 0, 0, U8, x]);
+    cshape!(enum_around_vec2, 12, 3, |x, y, z| [ENUM, 9, VEC2, SOME, U8, x, NONE] => [ENUM, 9, VEC1, 1, U8, x]);
+    cshape!(some_around_vec2, 12, 2, |x, y, z| [SOME, VEC2, NONE] => [SOME, VEC1, 0]);
+    cshape!(vec2_two, 12, 2, |x, y, z| [VEC2, SOME, U8, x, SOME, U8, y, NONE] => [VEC1, 2, U8, x, U8, y]);
+    cshape!(vec2_empty, 12, 1, |x, y, z| [VEC2, NONE] => [VEC1, 0]);
+    cshape!(vec1_two, 12, 2, |x, y, z| [VEC1, 2, U8, x, U8, y] => [VEC1, 2, U8, x, U8, y]);
+    cshape!(vec2_nested, 12, 3, |x, y, z| [VEC2, SOME, VEC2, SOME, U8, x, NONE, NONE] => [VEC1, 1, VEC1, 1, U8, x]);
+    cshape!(vec2_in_vec1, 12, 3, |x, y, z| [VEC1, 1, VEC2, SOME, U8, x, NONE] => [VEC1, 1, VEC1, 1, U8, x]);
+    cshape!(bytes2_segments, 12, 1, |x, y, z| [BYTES2, 2, x, y, 1, z, 0] => [BYTES1, 3, x, y, z]);
+    cshape!(bytes2_single, 12, 1, |x, y, z| [BYTES2, 3, x, y, z, 0] => [BYTES1, 3, x, y, z]);
+    cshape!(bytes2_empty, 12, 1, |x, y, z| [BYTES2, 0] => [BYTES1, 0]);
+    cshape!(bytes1, 12, 1, |x, y, z| [BYTES1, 3, x, y, z] => [BYTES1, 3, x, y, z]);
+    cshape!(struct2_two, 14, 2, |x, y, z| [STRUCT2, SOME, 3, U8, x, SOME, 250, U8, y, NONE] => [STRUCT1, 2, 3, U8, x, 250, U8, y]);
+    cshape!(struct2_empty, 12, 1, |x, y, z| [STRUCT2, NONE] => [STRUCT1, 0]);
+    cshape!(struct1_two, 14, 2, |x, y, z| [STRUCT1, 2, 3, U8, x, 250, U8, y] => [STRUCT1, 2, 3, U8, x, 250, U8, y]);
+    cshape!(struct2_with_vec2_field, 14, 3, |x, y, z| [STRUCT2, SOME, 3, VEC2, SOME, U8, x, NONE, NONE] => [STRUCT1, 1, 3, VEC1, 1, U8, x]);
+
+    /// a marker that is neither Some nor None is an error, not a panic
+    #[kani::proof]
+    #[kani::unwind(12)]
+    fn q_c13_bad_marker() {
+        let (x, y): (u8, u8) = (kani::any(), kani::any());
+        let vb = [VEC2, SOME, U8, x, U8, U8, y, NONE];
         let (rb, _, _) = run_convert(&vb, 0);
         assert!(rb == Err(ValueConversionError::Deserialize(DeserializeError::InvalidSerialization)));
-    }
-
-    #[kani::proof]
-    #[kani::unwind(10)]
-    fn q_c13_shape_bytes() {
-        let x: u8 = kani::any();
-        let y: u8 = kani::any();
-        let z: u8 = kani::any();
-        let b2 = [BYTES2, 2, x, y, 1, z, 0];
-        let b1 = [BYTES1, 3, x, y, z];
-        check_convert(&b2, &b1, 1);
-        let mut l = 0;
-        while l < 7 {
-            check_convert_prefix_rejected(&b2, l);
-            l += 1;
-        }
-        check_convert_prefix_rejected(&b1, 4);
-        let e2 = [BYTES2, 0];
-        let e1 = [BYTES1, 0];
-        check_convert(&e2, &e1, 1);
-    }
-
-    #[kani::proof]
-    #[kani::unwind(10)]
-    fn q_c13_shape_struct() {
-        let i1: u8 = 3;
-        let i2: u8 = 250;
-        let x: u8 = kani::any();
-        let y: u8 = kani::any();
-        let s2 = [STRUCT2, SOME, i1, U8, x, SOME, i2, U8, y, NONE];
-        let s1 = [STRUCT1, 2, i1, U8, x, i2, U8, y];
-        check_convert(&s2, &s1, 2);
-        let mut l = 0;
-        while l < 10 {
-            check_convert_prefix_rejected(&s2, l);
-            l += 1;
-        }
-        check_convert_prefix_rejected(&s1, 7);
-        check_convert_prefix_rejected(&s1, 2);
-        let e2 = [STRUCT2, NONE];
-        let e1 = [STRUCT1, 0];
-        check_convert(&e2, &e1, 1);
-        // a struct field holding a new-epoch vec
-        let f2 = [STRUCT2, SOME, i1, VEC2, SOME, U8, x, NONE, NONE];
-        let f1 = [STRUCT1, 1, i1, VEC1, 1, U8, x];
-        check_convert(&f2, &f1, 3);
     }
 
     #[cfg(verif_replay)]
@@ -365,102 +331,97 @@ mod keys {
     use super::*;
     use crate::tags::{self, KeyTag, KeyTagImpl};
 
-    /// `$kb` = encoded key as found in the input, `$kc` = its canonical re-encoding.
+    /// `$kb` = encoded key as found in the input, `$kc` = its canonical re-encoding. One module
+    /// per key form with one harness for maps and one for sets.
     macro_rules! keyed_convert {
         ($(#[$m:meta])* $name:ident, $unwind:expr, $ktag:ty, $klen:expr, $clen:expr, |$s:ident| $pre:expr, $kb:expr, $kc:expr) => {
             $(#[$m])*
-            #[kani::proof]
-            #[kani::unwind($unwind)]
-            fn $name() {
-                let $s: [u8; 16] = kani::any();
-                kani::assume($pre);
-                let kb: [u8; $klen] = $kb;
-                let kc: [u8; $clen] = $kc;
-                let v: u8 = kani::any();
-                        const K: usize = $klen;
+            mod $name {
+                use super::*;
+                const K: usize = $klen;
                 const C: usize = $clen;
-                let map1 = <<$ktag as KeyTag>::Impl as KeyTagImpl>::VALUE_KIND_MAP1 as u8;
-                let map2 = <<$ktag as KeyTag>::Impl as KeyTagImpl>::VALUE_KIND_MAP2 as u8;
-                let set1 = <<$ktag as KeyTag>::Impl as KeyTagImpl>::VALUE_KIND_SET1 as u8;
-                let set2 = <<$ktag as KeyTag>::Impl as KeyTagImpl>::VALUE_KIND_SET2 as u8;
 
-                // Map2 [MAP2, SOME, key, U8, v, NONE] -> Map1 [MAP1, 1, canon key, U8, v]
-                let mut m2 = [0u8; K + 5];
-                m2[0] = map2;
-                m2[1] = SOME;
-                let mut i = 0;
-                while i < K {
-                    m2[2 + i] = kb[i];
-                    i += 1;
+                fn keys() -> ([u8; K], [u8; C]) {
+                    let $s: [u8; 16] = kani::any();
+                    kani::assume($pre);
+                    ($kb, $kc)
                 }
-                m2[K + 2] = U8;
-                m2[K + 3] = v;
-                m2[K + 4] = NONE;
-                let mut m1 = [0u8; C + 4];
-                m1[0] = map1;
-                m1[1] = 1;
-                let mut i = 0;
-                while i < C {
-                    m1[2 + i] = kc[i];
-                    i += 1;
-                }
-                m1[C + 2] = U8;
-                m1[C + 3] = v;
-                check_convert(&m2, &m1, 2);
-                let mut l = 0;
-                while l < K + 5 {
-                    check_convert_prefix_rejected(&m2, l);
-                    l += 1;
-                }
-                // legacy input with the non-canonical key: canonicalised as well
-                let mut m1in = [0u8; K + 4];
-                m1in[0] = map1;
-                m1in[1] = 1;
-                let mut i = 0;
-                while i < K {
-                    m1in[2 + i] = kb[i];
-                    i += 1;
-                }
-                m1in[K + 2] = U8;
-                m1in[K + 3] = v;
-                check_convert(&m1in, &m1, 2);
-                check_convert_prefix_rejected(&m1in, K + 3);
-                check_convert_prefix_rejected(&m1in, 2);
 
-                // Set2 [SET2, SOME, key, NONE] -> Set1 [SET1, 1, canon key]
-                let mut s2 = [0u8; K + 3];
-                s2[0] = set2;
-                s2[1] = SOME;
-                let mut i = 0;
-                while i < K {
-                    s2[2 + i] = kb[i];
-                    i += 1;
+                fn put<const N: usize>(dst: &mut [u8], at: usize, k: &[u8; N]) {
+                    let mut i = 0;
+                    while i < N {
+                        dst[at + i] = k[i];
+                        i += 1;
+                    }
                 }
-                s2[K + 2] = NONE;
-                let mut s1 = [0u8; C + 2];
-                s1[0] = set1;
-                s1[1] = 1;
-                let mut i = 0;
-                while i < C {
-                    s1[2 + i] = kc[i];
-                    i += 1;
+
+                /// Map2 [MAP2, SOME, key, U8, v, NONE] and Map1 [MAP1, 1, key, U8, v] -> [MAP1, 1, canon key, U8, v]
+                #[kani::proof]
+                #[kani::unwind($unwind)]
+                fn q_c13_c12_maps() {
+                    let (kb, kc) = keys();
+                    let v: u8 = kani::any();
+                    let map1 = <<$ktag as KeyTag>::Impl as KeyTagImpl>::VALUE_KIND_MAP1 as u8;
+                    let map2 = <<$ktag as KeyTag>::Impl as KeyTagImpl>::VALUE_KIND_MAP2 as u8;
+                    let mut m2 = [0u8; K + 5];
+                    m2[0] = map2;
+                    m2[1] = SOME;
+                    put(&mut m2, 2, &kb);
+                    m2[K + 2] = U8;
+                    m2[K + 3] = v;
+                    m2[K + 4] = NONE;
+                    let mut m1 = [0u8; C + 4];
+                    m1[0] = map1;
+                    m1[1] = 1;
+                    put(&mut m1, 2, &kc);
+                    m1[C + 2] = U8;
+                    m1[C + 3] = v;
+                    check_convert(&m2, &m1, 2);
+                    check_convert_prefix_rejected(&m2, K + 4);
+                    check_convert_prefix_rejected(&m2, K + 2);
+                    check_convert_prefix_rejected(&m2, 2);
+                    // legacy input with the same (possibly non-canonical) key: canonicalised as well
+                    let mut m1in = [0u8; K + 4];
+                    m1in[0] = map1;
+                    m1in[1] = 1;
+                    put(&mut m1in, 2, &kb);
+                    m1in[K + 2] = U8;
+                    m1in[K + 3] = v;
+                    let (r, c, out) = run_convert(&m1in, 0);
+                    assert!(r.is_ok() && c == K + 4 && same_bytes(&out, &m1));
+                    check_convert_prefix_rejected(&m1in, K + 3);
                 }
-                check_convert(&s2, &s1, 1);
-                let mut l = 0;
-                while l < K + 3 {
-                    check_convert_prefix_rejected(&s2, l);
-                    l += 1;
+
+                /// Set2 [SET2, SOME, key, NONE] and Set1 [SET1, 1, key] -> [SET1, 1, canon key]
+                #[kani::proof]
+                #[kani::unwind($unwind)]
+                fn q_c13_c12_sets() {
+                    let (kb, kc) = keys();
+                    let set1 = <<$ktag as KeyTag>::Impl as KeyTagImpl>::VALUE_KIND_SET1 as u8;
+                    let set2 = <<$ktag as KeyTag>::Impl as KeyTagImpl>::VALUE_KIND_SET2 as u8;
+                    let mut s2 = [0u8; K + 3];
+                    s2[0] = set2;
+                    s2[1] = SOME;
+                    put(&mut s2, 2, &kb);
+                    s2[K + 2] = NONE;
+                    let mut s1 = [0u8; C + 2];
+                    s1[0] = set1;
+                    s1[1] = 1;
+                    put(&mut s1, 2, &kc);
+                    check_convert(&s2, &s1, 1);
+                    check_convert_prefix_rejected(&s2, K + 2);
+                    check_convert_prefix_rejected(&s2, 2);
+                    let mut s1in = [0u8; K + 2];
+                    s1in[0] = set1;
+                    s1in[1] = 1;
+                    put(&mut s1in, 2, &kb);
+                    let (r, c, out) = run_convert(&s1in, 0);
+                    assert!(r.is_ok() && c == K + 2 && same_bytes(&out, &s1));
+                    check_convert_prefix_rejected(&s1in, K + 1);
                 }
-                let mut s1in = [0u8; K + 2];
-                s1in[0] = set1;
-                s1in[1] = 1;
-                let mut i = 0;
-                while i < K {
-                    s1in[2 + i] = kb[i];
-                    i += 1;
-                }
-                check_convert(&s1in, &s1, 1);
-                check_convert_prefix_rejected(&s1in, K + 1);
+
+                #[cfg(verif_replay)]
+                include!(concat!("/verif/.cache/replay/convert_value__verif__keys__", stringify!($name), ".rs"));
             }
         };
     }
